@@ -1,63 +1,97 @@
 (* C10 — Categorical sensors are mapped onto dumps by the documented rule.  Only statements here.
 
-   FULL STATEMENT (C10_per_dump, not closed in this development; see design.d/C10.md for what is missing):
-     forall ts vals ends P tr init greedy ar st,
-       sorted ts -> strictly increasing ends -> 0 < P -> length ts = length vals ->
-       start_value (combine ts (map (app_tr tr) vals)) init (last ends 0) = Some st ->
-       per_dump ts vals ends P tr init greedy ar = Ok l <-> spec_per_dump ts vals ends P tr init greedy = Some l
-   It is refuted for the code as it stands by C10_greedy_initial_refuted (finding F14); the version that holds
-   replaces `init` on the spec side by `init_as_coded ts ends P init`.
-   What IS proved for all inputs is the heart of the rule, C10_generator_per_dump_partial below: the
-   _single_event_per_dump state machine (in its cached-look-up form, Model.SensorToCat.afinal, tied to the real
-   generator and to the index-based model by the correspondence) yields, for every non-decreasing placement of
-   any number of events over any number of dumps and every greedy predicate, change events whose expansion is
-   the documented per-dump value, and they are well formed. *)
+   Model.SensorToCat: `per_dump` = data[:] of the CategoricalData returned by the model of sensor_to_categorical
+   (searchsorted against dump end times with the extra prior dump, clipping, transform, initial value incl. the
+   repaired F7 branch, events[0] := 0, the index-based generator with the in-place events[i] += 1, indexing by
+   cleaned_up, repeat removal, unique_in_order / _lookup).  `spec_per_dump` = the documented rule over TIMES,
+   recursion free: dump k covers (end_{k-1}, end_k]; its value is `pick` (latest greedy, else last) of
+   [value of the last event at or before end_{k-1}, or else the start value] ++ [values of the events inside];
+   start value = initial value, else first event at or before the last dump end.  The transform is applied to the
+   values before anything else on both sides (greedy membership and repeat removal see transformed values only).
+
+   FULL statement of the property = C10_per_dump_partial WITHOUT its guard; it is refuted for the code as it is by
+   C10_greedy_initial_refuted (finding F14), and C10_per_dump_as_coded says exactly what the code does instead for
+   EVERY input (the rule with the initial value dropped in the F14 situation).  The guard `c10_guard` excludes
+   "initial value given, no event at or before the start of dump 0, an event inside dump 0"; F14 is the sub-case
+   where that initial value is greedy (for a non-greedy one code and rule agree, which is only checked by the
+   correspondence, not proved). *)
 From Coq Require Import ZArith List Bool.
 From KV Require Import Base.Sx Model.SensorToCat Proofs.SensorToCatP.
 Import ListNotations.
 Open Scope Z_scope.
 
-(* F14: the unrepaired code ignores a greedy initial value when the first event lies inside dump 0. *)
+(* ---- the generator, index-based model (nth / upd, events[i] += 1), all inputs ----
+   For EVERY list l of (dump, value) events after a first event (0, v0), dumps non-decreasing and below N, and every
+   greedy predicate, the events selected by `single_event_per_dump`, read as (value, mutated dump) pairs:
+   (1) the value in force at each dump k in [0, N) is pick (carried value ++ values of the events inside dump k);
+   (2) they lie in [0, N), their dumps strictly increase and the first one is at dump 0. *)
+Theorem C10_generator_per_dump : forall (isg : Z -> bool) (v0 : Z) (l : list (Z * Z)) (N : Z),
+  nondecr 0 l -> Forall (fun e => fst e < N) ((0, v0) :: l) ->
+  let evt := 0 :: map fst l ++ [N] in
+  let vals := v0 :: map snd l in
+  let ce := single_event_per_dump evt (map isg vals) in
+  let out := map (fun i => (nth i vals 0, nth i (snd ce) 0)) (fst ce) in
+  (forall k, 0 <= k < N -> lookupd 0 out k = ivalue isg ((0, v0) :: l) k) /\
+  Forall (fun e => 0 <= snd e < N) out /\ ssorted (map snd out) /\ exists v t, out = (v, 0) :: t.
+Proof. exact generator_rule. Qed.
+Print Assumptions C10_generator_per_dump.
+
+(* ---- searchsorted layer: an event at time t lands in dump k iff end_{k-1} < t <= end_k ----
+   a = the dump end times preceded by the extra prior dump (strictly increasing), (lo, hi) its k-th pair of
+   neighbours: lo < t <= hi iff searchsorted(a, t) = k + 1, and t <= lo iff searchsorted(a, t) <= k. *)
+Theorem C10_searchsorted_dump : forall a, ssorted a -> forall k lo hi,
+  nth_error (combine a (tl a)) k = Some (lo, hi) -> forall t,
+  ((lo <? t) && (t <=? hi) = Nat.eqb (ss_left a t) (S k)) /\ ((t <=? lo) = Nat.leb (ss_left a t) k).
+Proof. exact ss_pairs. Qed.
+Print Assumptions C10_searchsorted_dump.
+
+(* ---- the whole function, EVERY input: what the code computes is the rule with `init_as_coded` ----
+   and (C10_wellformed) events start at 0, strictly increase, end at N, one more event than values, and no two
+   consecutive values are equal unless allow_repeats. *)
+Theorem C10_per_dump_as_coded : forall ts vals e0 er P tr init greedy ar,
+  let ends := e0 :: er in
+  ssorted ends -> 0 < P -> time_sorted ts -> length ts = length vals ->
+  per_dump ts vals ends P tr init greedy ar =
+    match spec_per_dump ts vals ends P tr (init_as_coded ts ends P init) greedy with
+    | Some l => Ok l | None => Err end.
+Proof. intros. apply per_dump_coded; assumption. Qed.
+Print Assumptions C10_per_dump_as_coded.
+
+Theorem C10_wellformed : forall ts vals e0 er P tr init greedy ar v e,
+  let ends := e0 :: er in
+  ssorted ends -> 0 < P -> time_sorted ts -> length ts = length vals ->
+  s2c ts vals ends P tr init greedy ar = Ok (v, e) ->
+  (exists t, e = 0 :: t) /\ ssorted e /\ last e 0 = Z.of_nat (length ends) /\ length e = S (length v) /\
+  (ar = false -> norep v).
+Proof.
+  intros ts vals e0 er P tr init greedy ar v e ends H1 H2 H3 H4 H5.
+  exact (proj2 (per_dump_coded ts vals e0 er P tr init greedy ar H1 H2 H3 H4) v e H5).
+Qed.
+Print Assumptions C10_wellformed.
+
+(* ---- THE theorem under the guard that excludes the F14 situation ---- *)
+Theorem C10_per_dump_partial : forall ts vals e0 er P tr init greedy ar,
+  let ends := e0 :: er in
+  ssorted ends -> 0 < P -> time_sorted ts -> length ts = length vals ->
+  c10_guard ts ends P init = true ->
+  per_dump ts vals ends P tr init greedy ar =
+    match spec_per_dump ts vals ends P tr init greedy with Some l => Ok l | None => Err end.
+Proof. exact per_dump_guarded. Qed.
+Print Assumptions C10_per_dump_partial.
+
+(* hypotheses and guard are satisfiable; prior event, greedy value inside a dump, edge event, late event *)
+Theorem C10_per_dump_example :
+  let ts := [-5; 1; 2; 4; 9] in let vals := [2; 3; 1; 4; 2] in let ends := [0; 2; 4] in
+  ssorted ends /\ time_sorted ts /\ c10_guard ts ends 2 (Some 5) = true /\
+  per_dump ts vals ends 2 None (Some 5) [3] false = Ok [2; 3; 4] /\
+  spec_per_dump ts vals ends 2 None (Some 5) [3] = Some [2; 3; 4].
+Proof. exact per_dump_guard_example. Qed.
+Print Assumptions C10_per_dump_example.
+
+(* F14: without the guard the full statement fails for the code as it is. *)
 Theorem C10_greedy_initial_refuted :
   exists ts vals ends P init greedy,
     per_dump ts vals ends P None (Some init) greedy false = Ok [1; 2; 2] /\
     spec_per_dump ts vals ends P None (Some init) greedy = Some [3; 2; 2].
 Proof. exact greedy_initial_refuted. Qed.
 Print Assumptions C10_greedy_initial_refuted.
-
-(* For EVERY list of (dump, value) events l after a first event (0, v0), dumps non-decreasing and below N, and every
-   greedy predicate: the (value, dump) change events produced by the generator satisfy
-   (1) per-dump rule: for each dump k in [0, N) the value in force at k (value of the last change event at or
-       before k) is pick (carried value ++ values of the events inside dump k) = latest greedy one, else the last;
-   (2) well-formedness: change events lie in [0, N), their dumps strictly increase and the first one is at dump 0. *)
-Theorem C10_generator_per_dump_partial : forall (isg : Z -> bool) (v0 : Z) (l : list (Z * Z)) (N : Z),
-  nondecr 0 l -> Forall (fun e => fst e < N) ((0, v0) :: l) ->
-  let out := afinal isg v0 l N in
-  (forall k, 0 <= k < N -> lookupd 0 out k = ivalue isg ((0, v0) :: l) k) /\
-  Forall (fun e => 0 <= snd e < N) out /\ ssorted (map snd out) /\ exists v t, out = (v, 0) :: t.
-Proof. exact afinal_rule. Qed.
-Print Assumptions C10_generator_per_dump_partial.
-
-(* the hypotheses are satisfiable and the conclusion discriminates (greedy g at dump 0 beats the later a, which is
-   pushed to dump 1 and loses to b there) *)
-Theorem C10_generator_example :
-  let isg := fun v => memZ v [3] in
-  nondecr 0 [(0, 1); (1, 2); (3, 1)] /\ Forall (fun e => fst e < 5) ((0, 3) :: [(0, 1); (1, 2); (3, 1)]) /\
-  afinal isg 3 [(0, 1); (1, 2); (3, 1)] 5 = [(3, 0); (2, 1); (1, 3)] /\
-  map (ivalue isg ((0, 3) :: [(0, 1); (1, 2); (3, 1)])) [0; 1; 2; 3; 4] = [3; 2; 2; 1; 1].
-Proof. exact afinal_example. Qed.
-Print Assumptions C10_generator_example.
-
-(* One step of the index-based generator (gstep: nth / upd on the mutated events array, exactly as the code) is
-   simulated by one step of the cached-look-up machine (astep) under the relation R (winner index below the
-   current event, its dump/value cached, events from position ce-1 on unmutated, yielded indices below ce-1 and
-   their (value, dump) pairs equal).  This is the inductive step of the link between `single_event_per_dump` and
-   `afinal`; iterating it over the event list (pure index plumbing) is not done yet. *)
-Theorem C10_generator_simulation_step_partial :
-  forall (isg : Z -> bool) (evt vals : list Z) (ce : nat) (s : gst) (a : ast),
-  R evt vals ce s a -> (ce < length evt)%nat -> (length vals + 1 = length evt)%nat ->
-  apd a <= nth ce evt 0 ->
-  R evt vals (S ce) (gstep (map isg vals) s ce (nth ce evt 0))
-                        (astep isg a (nth ce evt 0) (nth ce vals 0) (ce <? length vals)%nat).
-Proof. exact sim_step. Qed.
-Print Assumptions C10_generator_simulation_step_partial.
